@@ -148,12 +148,15 @@ func hostileInputs() []hostile {
 		{"onlynl.lines", []byte("\n\n\n"), nil, "lines file of empty lines"},
 		{"nonl.lines", []byte("abc"), nil, "lines file without trailing newline"},
 		{"crlf.lines", []byte("a\r\nb\r\n"), nil, "CRLF lines"},
+	}
+	hs = append(hs, lateCSVFiles()...)
+	hs = append(hs, []hostile{
 		{"garbage.parquet", []byte("PAR1" + strings.Repeat("\x00\x01garbage", 40) + "PAR1"), nil, "garbage with parquet magic"},
 		{"short.parquet", []byte("PAR1"), nil, "4-byte parquet"},
 		{"text.parquet", lines("not", "parquet"), nil, "text named .parquet"},
 		{"data.xyz", lines("a,b", "1,2"), nil, "unknown file extension"},
 		{"noext", lines(`{"a":1}`), nil, "file without extension"},
-	}
+	}...)
 	return hs
 }
 
@@ -196,4 +199,43 @@ func writeFixtures(dir string, repo string) (scenarioFixtures int, err error) {
 		scenarioFixtures++
 	}
 	return scenarioFixtures, nil
+}
+
+// lateCSVFiles: 160 well-formed rows (header a,b,c,d; Int cells) with one defective row at row 101
+// (the first after the schema preview), row 150 or the last row.
+func lateCSVFiles() []hostile {
+	defects := []struct{ name, row, what string }{
+		{"short1", "7", "a row with one cell"},
+		{"short3", "7,8,9", "a row with three of four cells"},
+		{"long", "7,8,9,10,11,12", "a row with six cells"},
+		{"empty", "", "an empty line"},
+		{"quote", "7,8,\"9,10", "a row with a lone quote"},
+	}
+	positions := []struct {
+		name string
+		at   int
+	}{{"r101", 101}, {"r150", 150}, {"last", 160}}
+	build := func(sep string, at int, bad string) []byte {
+		rows := []string{strings.Join([]string{"a", "b", "c", "d"}, sep)}
+		for i := 1; i <= 160; i++ {
+			if i == at {
+				rows = append(rows, strings.ReplaceAll(bad, ",", sep))
+				continue
+			}
+			rows = append(rows, strings.Join([]string{fmt.Sprint(i), fmt.Sprint(i % 3), fmt.Sprint(i * 2), fmt.Sprint(i + 1000)}, sep))
+		}
+		return lines(rows...)
+	}
+	var out []hostile
+	for _, d := range defects {
+		for _, p := range positions {
+			out = append(out, hostile{"late_" + d.name + "_" + p.name + ".csv", build(",", p.at, d.row), nil, d.what + " at row " + fmt.Sprint(p.at) + " of 160 (beyond the preview)"})
+		}
+	}
+	out = append(out,
+		hostile{"late_short1_r101.tsv", build("\t", 101, "7"), nil, "TSV: a row with one cell at row 101"},
+		hostile{"late_short3_last.tsv", build("\t", 160, "7,8,9"), nil, "TSV: a row with three cells at the last row"},
+		hostile{"late_quote_r150.tsv", build("\t", 150, "7,8,\"9,10"), nil, "TSV: a lone quote at row 150"},
+	)
+	return out
 }
